@@ -6,26 +6,56 @@ import runner
 from props.parts import _tracksv1_gen as G
 
 NS = "EngineModel.Properties.C06V1."
-LEAN_MODULES = ["Properties.C06V1"]
+LEAN_MODULES = ["Properties.C06V1", "Properties.C06V1Accept"]
 THEOREMS = [NS + t for t in [
-    "v1_C06_get_set", "v1_C06_reject", "v1_C06_frame", "v1_C06_frame_derived", "v1_C06_getter_snapshot",
-    "v1_C06_inv_write", "v1_C06_inv_set", "v1_C06_other_track", "v1_C06_history", "v1_C06_history_other_tracks"]]
-import os as _os
-if not _os.path.exists(_os.path.join(LEAN, "Properties", "C06V1.lean")):
-    # the 1.x theorem file is not in the tree yet: claim the tie only, say so
-    THEOREMS, LEAN_MODULES = [], []
+    "v1_C06_setter_spec", "v1_C06_get_set", "v1_C06_reject", "v1_C06_never_ub", "v1_C06_frame", "v1_C06_frame_derived",
+    "v1_C06_getter_snapshot", "v1_C06_slot_getters_safe", "v1_C06_inv_write", "v1_C06_inv_set", "v1_C06_inv_db",
+    "v1_C06_other_track", "v1_C06_db_get_set", "v1_C06_history", "v1_C06_history_getters",
+    "v1_C06_history_other_tracks", "v1_C06_absent_track", "v1_C06_remove_track", "v1_C06_table_ok",
+    "v1_C06_unique_path", "v1_C06_spec_get_put",
+    "v1_C06_spec_frame",
+    # acceptance side and the headline clause (Properties/C06V1Accept.lean)
+    "v1_C06_accepts_row", "v1_C06_accepts", "v1_C06_refused_throws", "v1_C06_accepts_spec", "v1_C06_clean_db",
+    "v1_C06_history_no_ub", "v1_C06_history_decided", "v1_C06_abs_is_snapshot", "v1_C06_value_last_set",
+    "v1_C06_value_last_set_spec", "v1_C06_setter_stricter_counterexample", "v1_C06_normField_normFields",
+    "v1_C06_accepted_iff_fields", "v1_C06_waveform_entry_points_counterexample"]]
 ASSUMPTIONS = [
     "1.x: setters are modelled on the rows of one track (every statement they issue has WHERE id = ?); the only "
     "cross-track coupling is UNIQUE(path) from 1.11.1 on, which is part of the database-level step",
-    "1.x: the multi-statement setters without a transaction scope (set_bpm, set_last_played_at, set_relative_path) are "
-    "modelled by their net effect; failure between their statements is C14's subject, not C06's",
+    "1.x: every multi-statement setter (set_bpm, set_duration, set_key, set_last_played_at, set_relative_path, "
+    "set_sample_count / _rate, set_waveform) runs inside one sqlite_transaction scope in the current code and is modelled "
+    "by its net effect (a throw carries no new state); a failure injected between their statements is C14's subject, a "
+    "statement failing by itself (missing PerformanceData row, guard) is observed by the tie: a call that threw must leave "
+    "every getter and the snapshot of its track unchanged",
+    "1.x: NaN is outside the quantifier (Spec.finiteArg; matters for set_bpm only: SQLite stores a NaN REAL as NULL); "
+    "std::ceil enters only through the explicit hypothesis CeilInRange of v1_C06_never_ub",
+    "1.x: acceptance (v1_C06_accepts, v1_C06_history_decided, v1_C06_value_last_set_spec) is proved on DbClean databases "
+    "(what create_track / update build from NaN-free snapshots and every setter keeps: v1_C06_clean_db) under the "
+    "explicit hypothesis FloatLaw of the opaque double arithmetic (ceil keeps |x| < 2^63 inside int64; int -> double is "
+    "never NaN and zero only for zero; u64/1024 is never NaN); the hardware instance is sampled against the law on every "
+    "run (v1spec.floatlaw, and the driver re-checks Clean / accepts-vs-outcome on every written row)",
+    "1.x: the setters are stricter than the setter Spec (offset -1.0 / NaN slots, tracks without PerformanceData row, "
+    "NaN loudness / main cue / sample rate): v1_C06_setter_stricter_counterexample; they throw and write nothing",
 ]
 MANIFEST_TEXT = (
-    "1.x: lens theorems for all 26 setters (incl. slot setters at any index) over the same Lean model: get-after-set "
-    "= Spec.normField, frame for every ordered pair of independent fields, getter = snapshot field on every reachable "
-    "state, other tracks untouched, lifted to arbitrary setter histories over any number of tracks by induction; tied by "
-    "generated setter histories over 3 tracks with all getters and snapshots observed after every step, and the lens "
-    "laws evaluated on the real library's own answers.")
+    "1.x: 36 theorems (Properties/C06V1.lean, C06V1Accept.lean) over the statement-level Lean model of the 26 getters / "
+    "setters of engine_track_impl.cpp.  What a setter does when it returns normally: it refines the Spec lens "
+    "(v1_C06_setter_spec: snapshot after = putField of the normalised value, other 24 fields and 7 slots unchanged), "
+    "get-after-set = Spec.normField, frame for every ordered pair of independent fields and for filename/extension, getter = "
+    "snapshot field, other tracks untouched, removed tracks, primary key / UNIQUE(path) kept.  WHICH calls return normally: "
+    "v1_C06_accepts (`accepts d id f v` — track exists, PerformanceData row present for blob setters, slot index 0..7, <= 8 "
+    "slots, labels 1..255 bytes, offset neither -1.0 nor NaN, storable grid, no NaN loudness / main cue / rate, path free — "
+    "iff dbSet returns ok) on DbClean databases (v1_C06_clean_db) under the explicit FloatLaw; no call of any history is "
+    "undefined (v1_C06_history_no_ub, dbRunStrict); the Spec replay decides the whole history in both directions "
+    "(v1_C06_history_decided: accepted calls = Spec.callAccepted, final snapshots and analysed flags = Spec.runCalls); the "
+    "headline clause v1_C06_value_last_set(_spec): after h1 ++ [set f v on id] ++ h2 with that call accepted and no later "
+    "accepted call on f or an overlapping field of id, getter f of id returns normField f v; the two normalisations linked "
+    "(v1_C06_normField_normFields) and their only acceptance difference characterised (v1_C06_accepted_iff_fields, "
+    "waveform without sample count: v1_C06_waveform_entry_points_counterexample).  Tied by generated histories over 3 "
+    "tracks (missing PerformanceData row, default grid != adjusted grid, a track removed mid-history, fixed witness "
+    "histories) with is_valid, all getters and snapshots observed after every step; oracles on the real library's own "
+    "answers: lens laws, value-last-set over the whole history, a thrown call changes nothing, and the acceptance predicate; "
+    "FloatLaw sampled on the hardware doubles.")
 TRUSTED_EXTRA = []
 
 GETTERS = ["album", "artist", "average_loudness", "beatgrid", "bitrate", "bpm", "comment", "composer", "duration",
@@ -84,11 +114,52 @@ SETTERS = GETTERS + ["hot_cue_at", "loop_at"]
 def obs_lines(extra_slots):
     out = []
     for t in TRACKS:
+        out.append(("get %s valid" % t, (t, "valid")))
         for g in GETTERS + DERIVED:
             out.append(("get %s %s" % (t, g), (t, g)))
         for (kind, i) in extra_slots:
             out.append(("get %s %s %d" % (t, kind, i), (t, "%s %d" % (kind, i))))
         out.append(("snap %s" % t, (t, "snap")))
+    return out
+
+
+ONE_ENTRY = bytes([1, 2, 3, 4, 5, 6])
+
+
+def witness_scripts(schemas):
+    """Fixed histories replaying the registered witnesses on the real library: (W1) set_waveform on a track without
+    sample count is accepted and read back although the snapshot path rejects such a snapshot
+    (v1_C06_waveform_entry_points_counterexample); (W2) a cue / loop with the reserved offset -1.0, which the snapshot
+    path stores as an empty slot, is refused by the slot and list setters (v1_C06_setter_stricter_counterexample);
+    (W3) value last set across a long tail of other calls and failing calls."""
+    slots = [("hot_cue_at", 0), ("hot_cue_at", 7), ("loop_at", 0), ("loop_at", 7)]
+    out = []
+    for sch in schemas:
+        lines, meta = ["#mode tracksv1", "create %s mem" % sch], [None, None]
+        full = G.minimal(b"c/full.mp3")
+        full.update(sample_count=8000000, sample_rate=G.dbits(44100.0), title=b"T", rating=40,
+                    hot_cues=[{"label": b"a", "off": G.dbits(1000.0), "color": "255 1 2 3"}])
+        for t, x in zip(TRACKS, [G.minimal(b"a/min.mp3"), G.minimal(b"b/min.mp3"), full]):
+            lines.append("mktrack %s %s" % (t, G.snap_txt(x))); meta.append(("mk", t))
+        for (l, m) in obs_lines(slots):
+            lines.append(l); meta.append(("obs", 0) + m)
+        calls = [
+            ("a", "waveform", G.hexs(ONE_ENTRY)),                                           # W1
+            ("c", "hot_cue_at", "0 some 61 %s 0 0 0 0" % G.NEG_ONE),                        # W2: refused
+            ("c", "hot_cues", "1 some 61 %s 0 0 0 0" % G.NEG_ONE),                          # W2: refused
+            ("c", "loop_at", "0 some 61 %s %s 0 0 0 0" % (G.NEG_ONE, G.dbits(5.0))),       # W2: refused
+            ("c", "rating", "250"),                                                         # W3: last set = 100
+            ("c", "hot_cue_at", "7 some 62 %s 9 8 7 6" % G.dbits(2000.0)),
+            ("c", "title", "s41"), ("b", "rating", "7"), ("c", "hot_cue_at", "9 none"),     # other calls, one failing
+            ("c", "beatgrid", "1 0 %s" % G.dbits(0.0)),                                     # failing (one marker)
+            ("c", "hot_cue_at", "0 none"), ("c", "sample_rate", G.dbits(48000.0)), ("c", "year", "1999"),
+        ]
+        for k, (t, f, v) in enumerate(calls, 1):
+            lines.append("set %s %s %s" % (t, f, v)); meta.append(("set", k, t, f, v))
+            for (l, m) in obs_lines(slots):
+                lines.append(l); meta.append(("obs", k) + m)
+        lines.append("v1.reupdate a"); meta.append(("aux", "reupdate-after-set-waveform"))
+        out.append((sch, lines, meta))
     return out
 
 
@@ -105,11 +176,30 @@ def build(rng, tier, schemas):
                 lines.append("mktrack %s %s" % (t, G.snap_txt(x))); meta.append(("mk", t))
             if rng.random() < 0.15:
                 lines.append("v1.rmperf b"); meta.append(("rmperf", "b"))
+            for t in TRACKS:
+                # a grid adjusted in Engine: default grid != adjusted grid (no library call produces this state)
+                if rng.random() < 0.4:
+                    lines.append("v1.skewgrid %s" % t); meta.append(("skew", t))
             slots = [("hot_cue_at", 0), ("hot_cue_at", 7), ("loop_at", 0), ("loop_at", 7)]
             for (l, m) in obs_lines(slots):
                 lines.append(l); meta.append(("obs", 0) + m)
+            rm_at = rng.randrange(5, steps) if rng.random() < 0.35 else None    # one track is removed mid-history
+            removed = None
             for k in range(1, steps + 1):
                 t = rng.choice(TRACKS)
+                if k == rm_at:
+                    removed = t
+                    lines.append("rmtrack %s" % t); meta.append(("rm", k, t))
+                    for (l, m) in obs_lines(slots):
+                        lines.append(l); meta.append(("obs", k) + m)
+                    continue
+                if removed is not None and k == rm_at + 1:
+                    # update() through the stale handle: must throw, must write nothing
+                    x = G.g_snapshot(rng, 7, "quick", valid=rng.random() < 0.8)
+                    lines.append("update %s %s" % (removed, G.snap_txt(x))); meta.append(("rm", k, removed))
+                    for (l, m) in obs_lines(slots):
+                        lines.append(l); meta.append(("obs", k) + m)
+                    continue
                 f = rng.choice(SETTERS + ["hot_cue_at", "loop_at", "hot_cues", "loops", "main_cue", "sample_rate",
                                           "sample_count", "key", "waveform"])
                 v = value_txt(rng, f, tier)
@@ -126,7 +216,7 @@ def build(rng, tier, schemas):
                     sl.append((rng.choice(["hot_cue_at", "loop_at"]), rng.choice([8, -1, 100])))
                 for (l, m) in obs_lines(sl):
                     lines.append(l); meta.append(("obs", k) + m)
-                if rng.random() < 0.2:
+                if rng.random() < 0.2 and t != removed:
                     lines.append("v1.rows %s" % t); meta.append(("rows",))
             scripts.append((sch, lines, meta))
     return scripts
@@ -169,6 +259,15 @@ def split_snap(txt):
     return d
 
 
+def snap_as_input(txt):
+    """snapshot text as printed -> as parsed (file_bytes is printed unsigned but read as a signed decimal)"""
+    t = txt.split()
+    i = 3 + 1 + 2 * int(t[3]) + 5
+    if t[i] != "none" and int(t[i]) >= 2 ** 63:
+        t[i] = str(int(t[i]) - 2 ** 64)
+    return " ".join(t)
+
+
 def overlapping(f, g):
     """getter g legitimately changes when setter f is called (same field, a view of it, or derived)"""
     fb = f.split()[0]
@@ -191,8 +290,8 @@ def canon(l):
 def tie(ctx):
     rng = random.Random(ctx.seed * 6151 + 606)
     schemas = G.QUICK_SCHEMAS if ctx.tier == "quick" else G.SCHEMAS
-    scripts = build(rng, ctx.tier, schemas)
-    hres = runner.run_harness([s[1] for s in scripts], watchdog=30)
+    scripts = build(rng, ctx.tier, schemas) + witness_scripts(schemas)
+    hres, retried = G.run_harness_robust(runner, [s[1] for s in scripts], watchdog=30)
     mres = runner.run_model([s[1] for s in scripts])
     spec_lines = []
     for (sch, lines, meta) in scripts:
@@ -201,13 +300,40 @@ def tie(ctx):
                 spec_lines.append("v1spec.normfield %s %s" % (m[3], m[4]))
     sout = [o for outs in runner.run_model(runner.shard(spec_lines, NCPU)) for o in outs]
     sp = iter(sout)
+    # the value / row part of the acceptance predicate (Spec.callAccepted), for both values of the is-analysed flag
+    acc_lines = []
+    law_lines = set()
+    for (sch, lines, meta) in scripts:
+        for m in meta:
+            if m and m[0] == "set":
+                acc_lines.append("v1spec.accepts 0 %s %s" % (m[3], m[4]))
+                acc_lines.append("v1spec.accepts 1 %s %s" % (m[3], m[4]))
+                if m[3] == "bpm" and m[4] != "none":
+                    law_lines.add("v1spec.floatlaw %s %d" % (m[4], rng.randrange(2 ** 64)))
+                if m[3] == "sample_count" and m[4] != "none":
+                    law_lines.add("v1spec.floatlaw %s %s" % (G.dbits(float(rng.randrange(10 ** 6)) + 0.5), m[4]))
+    for b in list(G.D_CLASSES.values()) + [G.NAN, G.dbits(9223372036854774784.0), G.dbits(-9223372036854774784.0)]:
+        for n in (0, 1, 1023, 1024, 2 ** 53 + 1, 2 ** 63, 2 ** 64 - 1):
+            law_lines.add("v1spec.floatlaw %s %d" % (b, n))
+    law_lines = sorted(law_lines)
+    aout = [o for outs in runner.run_model(runner.shard(acc_lines, NCPU)) for o in outs]
+    ap = iter(aout)
+    lout = [o for outs in runner.run_model(runner.shard(law_lines, NCPU)) for o in outs]
 
     divergences, violations = [], []
     hist = {"steps": 0, "set_ok": 0, "set_throw": {}, "spec_reject": 0, "setter_stricter_than_spec": {},
             "by_field": {}, "slot_indices": {}, "getter_eq_snapshot_checks": 0, "frame_checks": 0,
-            "other_track_checks": 0, "nan_values": 0, "perf_row_missing_scripts": 0}
+            "other_track_checks": 0, "nan_values": 0, "perf_row_missing_scripts": 0, "watchdog_retries": retried}
     distinct = set()
     evals = 0
+    put_lines, put_meta = [], []
+    hist["float_law_samples"] = len(law_lines)
+    hist["acceptance_predicate_checks"] = 0
+    hist["last_set_checks"] = 0
+    hist["last_set_survived_steps_max"] = 0
+    for l, o in zip(law_lines, lout):
+        if o != "ok 1":
+            divergences.append({"input": l, "impl": "hardware doubles of the model driver", "model": "FloatLaw violated: " + o})
     for (sch, lines, meta), (hout, hrep), mout in zip(scripts, hres, mres):
         for i, l in enumerate(lines):
             evals += 1
@@ -216,9 +342,11 @@ def tie(ctx):
                                     "model": mout[i][:400]})
         if any(m and m[0] == "rmperf" for m in meta):
             hist["perf_row_missing_scripts"] += 1
+        hist["skewed_grid_tracks"] = hist.get("skewed_grid_tracks", 0) + sum(1 for m in meta if m and m[0] == "skew")
         # observations per step on the real library's answers
         obs = {}
         sets = {}
+        rms = {}
         for i, m in enumerate(meta):
             if not m:
                 continue
@@ -226,6 +354,8 @@ def tie(ctx):
                 obs.setdefault(m[1], {})[(m[2], m[3])] = hout[i]
             elif m[0] == "set":
                 sets[m[1]] = (i, m[2], m[3], m[4], hout[i])
+            elif m[0] == "rm":
+                rms[m[1]] = (i, m[2], hout[i])
 
         def viol(k, what, extra=()):
             i = sets[k][0]
@@ -234,10 +364,64 @@ def tie(ctx):
                                "header": {"kind": "history", "part": "C06_v1", "what": what},
                                "body": body + ["note: " + e for e in extra]})
 
+        removed_at = {}
+        for k, (_, t, _) in sorted(rms.items()):
+            removed_at.setdefault(t, k)
+        noperf = {m[1] for m in meta if m and m[0] == "rmperf"}
+        tainted = {m[1] for i, m in enumerate(meta) if m and m[0] == "mk" and G.NAN in lines[i]}
+        unique_path = G.SCHEMAS.index(sch) >= G.UNIQUE_PATH_FROM
+        specs_by_k = {}
+        for k, (i, t, res) in rms.items():
+            # remove_track: the track is gone, every other track is observed exactly as before
+            hist["removals"] = hist.get("removals", 0) + 1
+            before, after = obs.get(k - 1, {}), obs.get(k, {})
+            body = [l for l, m in zip(lines[:i + 1], meta[:i + 1]) if not (m and m[0] in ("obs", "rows"))]
+            bad = None
+            upd = lines[i].startswith("update ")
+            if upd and not res.startswith("throw"):
+                bad = "update() through the handle of a removed track did not throw (%s)" % res[:40]
+            elif not upd and res != "ok":
+                bad = "remove_track failed (%s)" % res
+            elif after.get((t, "valid")) != "ok 0" or not after.get((t, "snap"), "").startswith("throw"):
+                bad = "a removed track is still valid / still has a snapshot"
+            else:
+                for (tt, g), val in after.items():
+                    if tt != t and (tt, g) in before and before[(tt, g)] != val:
+                        bad = "%s of one track changed %s of another track" % ("update" if upd else "remove_track", g)
+                        break
+            if bad:
+                violations.append({"tag": "oracle", "signature": None,
+                                   "header": {"kind": "history", "part": "C06_v1", "what": bad + " on " + sch},
+                                   "body": body})
         for k in sorted(sets):
             i, t, f, v, res = sets[k]
             spec = next(sp)
+            acc = {"0": next(ap), "1": next(ap)}
+            specs_by_k[k] = (spec, G.NAN in v)
             hist["steps"] += 1
+            # the acceptance predicate (Spec.callAccepted of v1_C06_history_decided) judged on the real library's own
+            # answers: the track is valid, the guard of the setter holds, no other track holds the path
+            if t not in tainted and not (res.startswith("skipped") or res.startswith("missing") or res.startswith("ub")):
+                bef = obs.get(k - 1, {})
+                if (t, "valid") in bef:
+                    valid = bef[(t, "valid")] == "ok 1"
+                    clash = (f == "relative_path" and unique_path and
+                             any(tt != t and bef.get((tt, "valid")) == "ok 1" and
+                                 bef.get((tt, "relative_path")) == "ok " + v for tt in TRACKS))
+                    want_ok = valid and acc["0" if t in noperf else "1"] == "ok 1" and not clash
+                    hist["acceptance_predicate_checks"] += 1
+                    if want_ok != (res == "ok"):
+                        divergences.append({"input": "%s | line %d | %s" % (sch, i, lines[i][:300]), "impl": res[:200],
+                                            "model": "acceptance predicate (Spec.callAccepted): %s [valid=%s guard=%s clash=%s]"
+                                                     % ("ok" if want_ok else "throw", valid,
+                                                        acc["0" if t in noperf else "1"], clash)})
+            if t in removed_at and removed_at[t] < k:
+                # handle of a removed track: the call must throw (and, checked below like any other call,
+                # leave every other track alone)
+                hist["calls_on_removed_track"] = hist.get("calls_on_removed_track", 0) + 1
+                if res == "ok":
+                    viol(k, "setter %s on a removed track returned normally on %s" % (f, sch))
+                    continue
             hist["by_field"][f] = hist["by_field"].get(f, 0) + 1
             if res.startswith("skipped") or res.startswith("missing"):
                 continue
@@ -264,6 +448,11 @@ def tie(ctx):
                              ["get %s %s" % (t, fkey), "want: " + spec[:400], "got:  " + got[:400]])
                         continue
                     distinct.add((f, spec))
+                # the whole lens on the implementation's own snapshots: snapshot after = putField (snapshot before)
+                sb, sa = before.get((t, "snap"), ""), after.get((t, "snap"), "")
+                if spec.startswith("ok ") and not nan and sb.startswith("ok ") and sa.startswith("ok "):
+                    put_lines.append("v1spec.putfield %s %s %s" % (f, v, snap_as_input(sb[3:])))
+                    put_meta.append((sa, sch, f, t, lines, meta, i))
             else:
                 c = res.split()[1] if len(res.split()) > 1 else res
                 hist["set_throw"][c] = hist["set_throw"].get(c, 0) + 1
@@ -288,6 +477,49 @@ def tie(ctx):
                         viol(k, "setter %s changed the value of %s on %s" % (f, g, sch),
                              ["get %s %s" % (tt, g), "before: " + before[(tt, g)][:300], "after:  " + val[:300]])
                         break
+                elif res.startswith("throw"):
+                    # a call that threw has set nothing: every getter (its own included) and the snapshot of the
+                    # track still answer what they answered before
+                    hist["threw_unchanged_checks"] = hist.get("threw_unchanged_checks", 0) + 1
+                    if before[(tt, g)] != val:
+                        viol(k, "setter %s threw (%s) but changed %s of its track on %s"
+                             % (f, res.split()[1] if len(res.split()) > 1 else "?", g, sch),
+                             ["get/snap %s %s" % (tt, g), "before: " + before[(tt, g)][:300], "after:  " + val[:300]])
+                        break
+        # "each getter returns the value last set for its field" over the whole history (v1_C06_value_last_set):
+        # the normalised value of the last accepted call on (track, field) must be what the getter answers after
+        # EVERY later step, until an accepted call on the same or an overlapping field of that track (or its removal)
+        last = {}
+        for k in sorted(set(sets) | set(rms)):
+            line_i = sets[k][0] if k in sets else rms[k][0]
+            if k in rms and not lines[rms[k][0]].startswith("update "):
+                for key in [key for key in last if key[0] == rms[k][1]]:
+                    del last[key]
+            if k in sets and k in specs_by_k:
+                _, t, f, v, res = sets[k]
+                fkey = f if f not in ("hot_cue_at", "loop_at") else "%s %s" % (f, v.split()[0])
+                if res == "ok":
+                    for key in [key for key in last if key[0] == t and overlapping(fkey, key[1])]:
+                        del last[key]
+                    spec, nan = specs_by_k[k]
+                    if spec.startswith("ok ") and spec != "ok reject" and not nan:
+                        last[(t, fkey)] = (spec, k)
+            o = obs.get(k, {})
+            for (t, g), (want, k0) in list(last.items()):
+                got = o.get((t, g))
+                if got is None or k0 == k:
+                    continue
+                hist["last_set_checks"] += 1
+                hist["last_set_survived_steps_max"] = max(hist["last_set_survived_steps_max"], k - k0)
+                if got != want:
+                    body = [l for l, m in zip(lines[:line_i + 1], meta[:line_i + 1]) if not (m and m[0] in ("obs", "rows"))]
+                    violations.append({"tag": "oracle", "signature": None,
+                                       "header": {"kind": "history", "part": "C06_v1",
+                                                  "what": "getter %s no longer returns the value last set for its field "
+                                                          "(set at step %d, lost at step %d) on %s" % (g, k0, k, sch)},
+                                       "body": body + ["note: get %s %s" % (t, g), "note: want: " + want[:400],
+                                                       "note: got:  " + got[:400]]})
+                    del last[(t, g)]
         # getter = snapshot field after every step
         for k, o in obs.items():
             for t in TRACKS:
@@ -311,17 +543,28 @@ def tie(ctx):
                         viol(kk, "getter %s and snapshot().%s disagree on %s" % (g, g, sch),
                              ["get %s %s" % (t, g), "snap %s" % t, "getter:   " + got[:300], "snapshot: " + want[:300]])
                         break
+    # second Spec pass: the lens applied to the snapshot the real library returned before the call
+    hist["snapshot_lens_checks"] = len(put_lines)
+    pout = [o for outs in runner.run_model(runner.shard(put_lines, NCPU)) for o in outs] if put_lines else []
+    for want, (sa, sch, f, t, lines, meta, i) in zip(pout, put_meta):
+        if want != sa:
+            body = [l for l, m in zip(lines[:i + 1], meta[:i + 1]) if not (m and m[0] in ("obs", "rows"))]
+            violations.append({"tag": "oracle", "signature": None,
+                               "header": {"kind": "history", "part": "C06_v1",
+                                          "what": "snapshot() after setter %s is not the snapshot before with that field "
+                                                  "replaced by the normalised value on %s" % (f, sch)},
+                               "body": body + ["note: snap " + t, "note: want: " + want[:600], "note: got:  " + sa[:600]]})
     crashes = [r for (_, reps) in hres for r in reps]
     return {
         "ok": not divergences and not violations,
         "evaluations": evals,
         "distinct_nontrivial": len(distinct),
         "rule": "1.x: setter histories over 3 tracks (one fully analysed, one minimal, one random; in some scripts the "
-                "PerformanceData row of one track is deleted first), every setter incl. slot setters at indices 0..7 and "
+                "PerformanceData row of one track is deleted first, and the default beat grid of some tracks is made different from the adjusted one, as Engine does), every setter incl. slot setters at indices 0..7 and "
                 "out of range, values from the C01 classes; after every step all 26 getters, slot getters, filename / "
                 "extension and snapshot() of all three tracks; model vs implementation line by line; lens laws "
-                "(get-after-set = Spec.normField, frame, other tracks, getter = snapshot field) on the implementation's "
-                "answers; non-trivial = distinct (setter, normalised value) pairs confirmed by the getter",
+                "(get-after-set = Spec.normField, frame, other tracks, getter = snapshot field, snapshot after = "
+                "Spec.putField of the snapshot before) on the implementation's answers; non-trivial = distinct (setter, normalised value) pairs confirmed by the getter",
         "samples": [scripts[0][1][2][:300]] + [l[:200] for l in scripts[0][1] if l.startswith("set ")][:3],
         "histograms": hist,
         "divergences": divergences[:20],
